@@ -73,6 +73,8 @@ def _plain(idn, style, rng):
         return 'a"b\\c/d\x01\t<>& ' + tok + '\\"', tok
     if style == "control":
         return "\x01\x07\x0b\x7f\U000e0001" + tok + "\x1f", tok
+    if style == "shared_prefix":      # near-duplicates: a long common prefix, the difference at the very end
+        return "customer-records/2024/export-batch-000042/part-" + tok, tok
     if style == "dollar_inside":
         return tok + "$inside$", tok
     if style == "digits":
@@ -654,7 +656,7 @@ class Replay:
         self.opts = {"seed": verdict.seed, "variants": variants, "keymap": keymap, "styles": styles, "drift": drift, "ns_style": ns_style, "fn_style": fn_style}
         self.pool = multiprocessing.get_context("fork").Pool(
             common.NCPU, initializer=_worker_init,
-            initargs=({"cli": build.cli, "root": build.root}, cfgs, judge_name, self.opts))
+            initargs=({"cli": build.cli, "root": build.root, "inproc": build.inproc}, cfgs, judge_name, self.opts))
         self.buf, self.pending, self.chunk, self.nchunks = [], [], chunk, 0
         self.worker = process_chunk
         if worker:
